@@ -352,6 +352,7 @@ class Unit:
         props, implhdr, ret, sig, addparam = [], None, None, None, None
         attrs = []
         awaits = None
+        sigsubs = []
         subs = []
         sections = []  # (kind, arg, lines)
         cur = None
@@ -377,6 +378,10 @@ class Unit:
                     rule, rest = a.split(None, 1)
                     rx, repl = parse_bt(rest)
                     subs.append((rule, rx, repl, c == 'sub?'))
+                elif c == 'sigsub':
+                    rule, rest = a.split(None, 1)
+                    rx, repl = parse_bt(rest)
+                    sigsubs.append((rule, rx, repl, False))
                 elif c in ('spec', 'loop', 'before', 'after', 'bodystart'):
                     cur = (c, a, [])
                     sections.append(cur)
@@ -388,7 +393,7 @@ class Unit:
         # split signature / body
         sig_text = s.text[loc['start']:loc['body_open']]
         body_text = s.text[loc['body_open']:loc['body_close'] + 1]
-        sig_new = self.apply_rules(sig_text, rec, [])
+        sig_new = self.apply_rules(sig_text, rec, sigsubs)
         if emitted_name != fn:
             sig_new = re.sub(r'\bfn\s+%s\b' % re.escape(fn), 'fn ' + emitted_name, sig_new, count=1)
             rec.rewrites.append(dict(rule='R13', what='fn renamed %s -> %s' % (fn, emitted_name), count=1))
